@@ -150,6 +150,14 @@ def _sequence_loops(body, loc):
             off = ast.Name(id="seq__off", ctx=ast.Load())
             return dict(base=w["base"], node=w["node"], width=w["elt"],
                         elt=ast.Tuple(elts=[off, ast.BinOp(left=copy.deepcopy(off), op=ast.Add(), right=ast.Name(id="seq__w", ctx=ast.Load()))], ctx=ast.Load()))
+        if isinstance(e, ast.Call) and dotted(e.func) in ("accumulate", "itertools.accumulate") and len(e.args) == 1 and not e.keywords:
+            # running totals: element i is (sum of the widths before i) + width i
+            w = seq_of(e.args[0], depth + 1)
+            if w is None or w["width"] is not None:
+                return None
+            off = ast.Name(id="seq__off", ctx=ast.Load())
+            return dict(base=w["base"], node=w["node"], width=w["elt"],
+                        elt=ast.BinOp(left=off, op=ast.Add(), right=ast.Name(id="seq__w", ctx=ast.Load())))
         # a base iterable: a name that is not a derived sequence, or <expr>.values() / .items() / .keys() / an attribute
         if isinstance(e, ast.Name) or (isinstance(e, ast.Call) and isinstance(e.func, ast.Attribute) and e.func.attr in BASES and not e.args) \
                 or isinstance(e, ast.Attribute):
@@ -562,6 +570,14 @@ def loop_model(prog, q, container):
         env_in[key_var] = SX.Opaque(f"{tv}.name")
     for v in carried:
         env_in[v] = SX.atom(f"{v}__in")
+    # two loop-carried variables that start equal and are advanced alike hold the same value in every iteration (an offset kept
+    # twice): they are given one symbol, provided one iteration from equal values ends in equal values (inductive step)
+    groups = {}
+    for v in sorted(carried):
+        iv = pre.env.get(v)
+        if isinstance(iv, SX.Lin) and not iv.t:
+            groups.setdefault(iv.c, []).append(v)
+    unify = {v: g[0] for g in groups.values() if len(g) > 1 for v in g}
     # `if c: ...; continue` + rest  ==  `if c: ... else: rest`: bring the body into if/else form first
     import copy as _copy0
     from ..canon import _else_form
@@ -578,7 +594,19 @@ def loop_model(prog, q, container):
 
     lbody = drop_continue(lbody)
     try:
-        ex = SX.SymExec(env_in).run(lbody)
+        ex = None
+        if unify:
+            env_u = dict(env_in)
+            for v, r_ in unify.items():
+                env_u[v] = SX.atom(f"{r_}__in")
+            try:
+                ex_u = SX.SymExec(env_u).run(_copy0.deepcopy(lbody))
+                if all(ex_u.env.get(v) == ex_u.env.get(r_) for v, r_ in unify.items()):
+                    ex = ex_u
+            except AnalysisError:
+                ex = None
+        if ex is None:
+            ex = SX.SymExec(env_in).run(lbody)
     except AnalysisError as e:
         raise AnalysisError(f"{q}: {e}")
     return dict(f=f, lp=lp, tv=tv, it=it, container=container, pre=pre, ex=ex, body=body, coll=coll, view=view)
